@@ -33,6 +33,8 @@ pub enum WrOp {
     Zero,
 }
 
+pub const LIVELOCK_CALLS: u64 = 200_000;
+
 #[derive(Default)]
 pub struct Shared {
     pub input: Vec<u8>,
@@ -48,6 +50,9 @@ pub struct Shared {
     pub last_given: usize,
     /// descriptors to hand out (real descriptors, provided by the harness)
     pub fd_pool: Vec<RawFd>,
+    /// stream calls made since the harness last scripted an operation: a library call that keeps
+    /// calling the stream (a retry loop) is a livelock, declared after LIVELOCK_CALLS calls
+    pub calls_in_op: u64,
     /// descriptors actually handed out, in order
     pub fds_given: Vec<RawFd>,
     pub last_fds_given: usize,
@@ -74,7 +79,13 @@ impl io::Read for SimStream {
     fn read(&mut self, _buf: &mut [u8]) -> io::Result<usize> {
         // HttpConnection never uses Read::read; count it as a receive so that the
         // "one receive per call" oracle would notice if it started to.
+        simkernel::heartbeat::beat();
         let mut s = self.sh.borrow_mut();
+        s.calls_in_op += 1;
+        if s.calls_in_op > LIVELOCK_CALLS {
+            drop(s);
+            panic!("livelock: more than {} stream calls inside one library call", LIVELOCK_CALLS);
+        }
         s.recv_calls += 1;
         Err(io::Error::from_raw_os_error(libc::EAGAIN))
     }
@@ -82,7 +93,13 @@ impl io::Read for SimStream {
 
 impl io::Write for SimStream {
     fn write(&mut self, buf: &[u8]) -> io::Result<usize> {
+        simkernel::heartbeat::beat();
         let mut s = self.sh.borrow_mut();
+        s.calls_in_op += 1;
+        if s.calls_in_op > LIVELOCK_CALLS {
+            drop(s);
+            panic!("livelock: more than {} stream calls inside one library call", LIVELOCK_CALLS);
+        }
         s.write_calls += 1;
         s.last_write_len = buf.len();
         s.last_write_accepted = 0;
@@ -124,7 +141,13 @@ impl ScmSocket for SimStream {
         iovecs: &mut [libc::iovec],
         fds: &mut [RawFd],
     ) -> errno::Result<(usize, usize)> {
+        simkernel::heartbeat::beat();
         let mut s = self.sh.borrow_mut();
+        s.calls_in_op += 1;
+        if s.calls_in_op > LIVELOCK_CALLS {
+            drop(s);
+            panic!("livelock: more than {} stream calls inside one library call", LIVELOCK_CALLS);
+        }
         s.recv_calls += 1;
         s.last_given = 0;
         s.last_fds_given = 0;
